@@ -125,6 +125,21 @@ func TerminalLayer() []*Grammar {
 	return gs
 }
 
+// EndLookahead: every terminal under & and ! at a place where the input may end (a lookahead's
+// verdict at end of input is only visible when nothing after it fails anyway).
+func EndLookahead() []*Grammar {
+	var gs []*Grammar
+	for ti, t := range Terminals() {
+		if nullableLeaf(t) {
+			continue
+		}
+		gs = append(gs, New(fmt.Sprintf("endlook/%d/and", ti), Seq(Lit("a"), And(Clone(t)))))
+		gs = append(gs, New(fmt.Sprintf("endlook/%d/not", ti), Seq(Lit("a"), Not(Clone(t)))))
+		gs = append(gs, New(fmt.Sprintf("endlook/%d/star-not", ti), Seq(Star(Lit("a")), Not(Clone(t)), Opt(Lit("b")))))
+	}
+	return gs
+}
+
 // ---- curated shapes named in the properties ----
 
 func Shapes() []*Grammar {
@@ -168,6 +183,14 @@ func Shapes() []*Grammar {
 	add("choice-star-seq-in-case", Seq(Alt(Seq(Star(Seq(a(), b())), a(), c()), Lit("d"), Class(R('x', 'z'))), Not(Dot())))
 	add("choice-plus-seq-in-case", Seq(Alt(Seq(Plus(Seq(Lit("-"), Lit(">"))), Class(R('0', '9'))), Class(R('0', '9')), Seq(Lit("("), Class(R('0', '9')), Lit(")"))), Not(Dot())))
 	add("choice-opt-seq-in-case", Seq(Alt(Seq(Opt(Seq(a(), b())), a(), c()), Lit("d"), Class(R('x', 'z'))), Not(Dot())))
+	// a loop whose body is a choice that -switch turns into a switch; an iteration that recorded
+	// a token is abandoned (the loop's backtrack point must restore the token index too)
+	add("loop-over-switched-choice", Seq(Star(Alt(Seq(Ref(1), Lit(",")), Seq(Ref(2), Lit(",")), Seq(Ref(3), Lit(";")))), Opt(Ref(1)), Not(Dot())),
+		Plus(a()), b(), Lit("d"))
+	add("opt-over-switched-choice", Seq(Opt(Alt(Seq(Ref(1), Lit(",")), Seq(Ref(2), Lit(",")), Seq(Cap(Lit("d")), Act(), Lit(";")))), Opt(Ref(1)), Opt(Lit("d")), Not(Dot())),
+		Plus(a()), b())
+	add("plus-over-switched-choice", Seq(Plus(Alt(Seq(Ref(1), Lit(",")), Seq(Ref(2), Lit(",")), Seq(Lit("d"), Lit(";")))), Opt(Ref(1)), Not(Dot())),
+		Plus(a()), b())
 	// first sets of mutually dependent rules (a rule consulted while it is still being analysed)
 	add("choice-recursive-first-sets", Seq(Ref(1), Not(Dot())), Alt(Seq(x(), Ref(2)), Lit("y")), Alt(Seq(Ref(1), Lit("q"), Ref(3)), Lit("k")),
 		Alt(Seq(Ref(2), Lit("r")), Seq(x(), Lit("r")), Class(R('m', 'p'))))
